@@ -349,6 +349,36 @@ func C09(tier string) int {
 		fmt.Printf("  config %+v: states=%d transitions=%d depth=%d\n", pc, st.States, st.Transitions, st.MaxDepth)
 	}
 	c09FailedHandshakes(run)
+	for _, ch := range []string{"abc", "ab", "a", "YWJj=", "-_8=", "not base64!", "YW Jj", "=", "YWJjZA", "\xff\xfe"} {
+		c := C09BadChallenge{Challenge: ch}
+		f := evalC09BadChallenge(c)
+		run.Eval(true)
+		if f != nil {
+			run.Violate("c09-bad-challenge", c, f, func() *h.Finding { return evalC09BadChallenge(c) })
+			run.Outcome("violation:" + f.Sig)
+		}
+	}
+	// long responses within a raised line limit reach the mechanism intact (the C19 family, judged here for AUTH)
+	for _, lim := range []int{12288} {
+		for _, n := range []int{1499, 1500, 3071, 3072, 3073, 4500, 8000} {
+			for _, ini := range []bool{true, false} {
+				c := C19LongAuthCase{Limit: lim, Len: n, Initial: ini}
+				f := evalC19LongAuth(c)
+				run.Eval(true)
+				if f != nil {
+					f.Sig = "c09-server-saw-other-octets"
+					run.Violate("c19-long-auth", c, f, func() *h.Finding {
+						g := evalC19LongAuth(c)
+						if g != nil {
+							g.Sig = "c09-server-saw-other-octets"
+						}
+						return g
+					})
+					run.Outcome("violation:" + f.Sig)
+				}
+			}
+		}
+	}
 	// client half
 	var cases []C09ClientCase
 	vals := c09Values
@@ -397,6 +427,83 @@ func C09(tier string) int {
 	})
 	return run.Finish()
 }
+
+// ---- a challenge that is not proper base64 (client half, scripted server) ----------------------------------------------
+
+type C09BadChallenge struct {
+	Challenge string `json:"challenge"` // what follows "334 "
+}
+
+// evalC09BadChallenge: the client cannot decode the challenge: it cancels the exchange with "*", reports an error, and
+// the connection stays usable (the next command is answered as itself).
+func evalC09BadChallenge(c C09BadChallenge) *h.Finding {
+	var f *h.Finding
+	desc := fmt.Sprintf("the server's challenge is %q", c.Challenge)
+	var lines []string
+	inAuth := false
+	script := func(line string, n int) []byte {
+		up := strings.ToUpper(line)
+		switch {
+		case inAuth:
+			inAuth = false
+			if line == "*" {
+				return []byte("501 5.0.0 cancelled\r\n")
+			}
+			return []byte("235 2.7.0 whatever you say\r\n")
+		case strings.HasPrefix(up, "EHLO"):
+			return []byte("250-fake.example\r\n250 AUTH TWO\r\n")
+		case strings.HasPrefix(up, "AUTH"):
+			inAuth = true
+			return []byte("334 " + c.Challenge + "\r\n")
+		case strings.HasPrefix(up, "QUIT"):
+			return []byte("221 2.0.0 bye\r\n")
+		}
+		return []byte("250 2.0.0 ok\r\n")
+	}
+	leak, pan := h.Bubble(func() {
+		h.WithScriptedServer("220 fake.example ESMTP\r\n", script, false, func(cs *h.CS) {
+			cl := cs.Client
+			sc := C09ClientCase{}
+			_ = sc
+			err := cl.Auth(&twoStepClient{})
+			if err == nil {
+				f = h.F("c09-no-cancel", "%s: Auth returned nil although the challenge cannot be decoded", desc)
+				return
+			}
+			if nerr := cl.Noop(); nerr != nil {
+				f = h.F("c09-unusable-after-auth", "%s: after the failed exchange (Auth returned %v) a Noop returned %v", desc, err, nerr)
+			}
+		}, &lines)
+	})
+	if f != nil {
+		return f
+	}
+	if pan != "" {
+		return h.F("c09-harness-panic", "%s: %s", desc, pan)
+	}
+	if leak != "" {
+		return h.F("c09-goroutine-leak", "%s: %.200s", desc, leak)
+	}
+	// the lines the server saw: EHLO, AUTH TWO, *, NOOP
+	sawCancel := false
+	for i, l := range lines {
+		if strings.HasPrefix(strings.ToUpper(l), "AUTH") && i+1 < len(lines) && strings.TrimRight(lines[i+1], "\r\n") == "*" {
+			sawCancel = true
+		}
+	}
+	if !sawCancel {
+		return h.F("c09-no-cancel", "%s: the client did not cancel the exchange with '*': the server saw %q", desc, lines)
+	}
+	return nil
+}
+
+// twoStepClient: no initial response, answers any challenge with "good".
+type twoStepClient struct{}
+
+func (*twoStepClient) Start() (string, []byte, error) { return "TWO", nil, nil }
+func (*twoStepClient) Next([]byte) ([]byte, error)    { return []byte("good"), nil }
+
+func init() { h.RegisterReplayer("c09-bad-challenge", evalC09BadChallenge) }
 
 // ---- a STARTTLS whose handshake fails ---------------------------------------------------------------
 
